@@ -379,5 +379,19 @@ def wfCycles (ops : FloatOps F) : Nat → Facts F → List (SRule F) → Bool
     (let p := pass ops f rs
      if p.error.isSome || p.fired == 0 then true else wfCycles ops n p.final rs)
 
+/-- several `execute` calls as the documentation describes them: each call is the documented cycle
+loop on the facts the caller hands in — the previous call's final facts with the caller's edits -/
+def calls (ops : FloatOps F) (n : Nat) (rs : List (SRule F)) : Facts F → List (List (CallerOp F)) → List (PassResult F)
+  | f, [] => [cycles ops n f rs]
+  | f, ph :: rest =>
+    let r := cycles ops n f rs
+    r :: calls ops n rs (applyCallerOps r.final ph) rest
+
+/-- every condition is in the domain at every moment of every call -/
+def wfCalls (ops : FloatOps F) (n : Nat) (rs : List (SRule F)) : Facts F → List (List (CallerOp F)) → Bool
+  | f, [] => wfCycles ops n f rs
+  | f, ph :: rest =>
+    wfCycles ops n f rs && wfCalls ops n rs (applyCallerOps (cycles ops n f rs).final ph) rest
+
 end Spec
 end C01
